@@ -19,7 +19,7 @@ var peerRecvTypes = map[string]bool{
 	"lazyCallReq": true, "lazyCallRes": true, "lazyError": true,
 	"fragmentingReader": true, "readableFragment": true,
 	"thrift/arg2.KeyValIterator": true,
-	"ChecksumType": true, "messageType": true, "SystemErrCode": true,
+	"ChecksumType":               true, "messageType": true, "SystemErrCode": true,
 }
 
 var peerParamTypes = map[string]bool{
@@ -88,10 +88,10 @@ func peerFuncs(p *core.Prog, codecOnly bool) []*ssa.Function {
 }
 
 type sinkOb struct {
-	fn      *ssa.Function
-	ins     ssa.Instruction
-	what    string
-	res     core.SinkResult
+	fn   *ssa.Function
+	ins  ssa.Instruction
+	what string
+	res  core.SinkResult
 }
 
 // sinkName gives a line-free name to a sink: kind + operand description.
